@@ -467,6 +467,8 @@ def run(cx, rep):
     digest_order_rule(cx, rep, "C13.9")
     # ---------------------------------------------------------------- C13.11
     one_stream_rule(cx, rep, "C13.11")
+    # ---------------------------------------------------------------- C13.12
+    commutative_member_order_rule(cx, rep, "C13.12")
     # ---------------------------------------------------------------- C13.10
     rep.rule("C13.10", "hash() / hash256() keep no state on the validator instances (their value depends on the hash context)")
     from rules.c16 import instance_state_rule
@@ -904,3 +906,50 @@ def one_stream_rule(cx, rep, rid):
                    "%s builds a digest context whose writer is %s and whose offset table is %s: the table must hold offsets of that writer's own stream" % (fname, a_, b_),
                    mod.loc(o), sample={"fn": fname, "writer": a_, "table": b_})
     rep.floor(rid, "digest context literals", n_lit, 1)
+
+
+# ---------------------------------------------------------------------------------------------------- C13.12
+def commutative_member_order_rule(cx, rep, rid):
+    """Union and intersection are commutative: `A | B` and `B | A` are one type, and the compiler hands the members
+    over in an order of its own (a sorted set in which a reference to a named type sorts by the NAME of the type).  A
+    digest that writes the members in list order therefore depends on type names and on alias boundaries (`U = A | B`
+    with A, B renamed; `U` against the inlined `{..} | {..}`) - confirmed by executing the real runtime under node
+    (tools/runjs.py, witness/t_hash_names_1 / _2).  Decided for every class that describes itself by joining its
+    member list with ` | ` or ` & `: hash() and hash256() fold the members order-independently - the per-member
+    results are collected and sorted before they are written - instead of writing them in list order."""
+    fam = ts_common.Family(cx)
+    mod = fam.mod
+    rep.rule(rid, "the digests of a union / intersection do not depend on the order in which the members are listed")
+    n = 0
+    for cname, c in sorted(fam.concrete().items()):
+        d = c.methods.get("describeTypeExpr")
+        if not d or d["function"].get("body") is None:
+            continue
+        joins = [x for x in walk(d["function"]) if x["type"] == "CallExpression" and method_call(x) and method_call(x)[1] == "join" and method_call(x)[2]
+                 and unparen(method_call(x)[2][0]).get("value") in (" | ", " & ")]
+        if not joins:
+            continue
+        # a union that dispatches on a key (a Record<string, Runtype> table next to the member list) is given its
+        # members in the order of the keys' values; not shown to depend on names (witness/t_hash_names_3 / _4): not judged
+        if any(ann is not None and tsast.type_str(ann).replace(" ", "").startswith("Record<string,Runtype") for _f, (_o, ann) in fam.all_fields(cname).items()):
+            continue
+        fld = None
+        for x in walk(joins[0]):
+            if x["type"] == "MemberExpression" and s(x["object"]) == "this" and x["property"].get("type") == "Identifier":
+                fld = x["property"]["value"]
+        if fld is None:
+            continue
+        for mname in ("hash", "hash256"):
+            m = c.methods.get(mname)
+            if not m or m["function"].get("body") is None:
+                continue
+            fn = tsast.flatten_fn(mod, cname, m["function"])
+            n += 1
+            loops = [x for x in walk(fn) if x["type"] in ("ForOfStatement", "ForStatement") and ("this.%s" % fld) in s(x.get("right") or x.get("test") or {})]
+            iter_calls = [x for x in walk(fn) if x["type"] == "CallExpression" and method_call(x) and method_call(x)[1] in ("map", "forEach", "reduce") and s(method_call(x)[0]) == "this.%s" % fld]
+            sorted_ = any(x["type"] == "CallExpression" and method_call(x) and method_call(x)[1] in ("sort", "toSorted") for x in walk(fn))
+            ordered = (loops or iter_calls) and not sorted_
+            rep.ob(rid, "%s.%s/order-independent" % (cname, mname), not ordered,
+                   "%s.%s() writes the members of `this.%s` in list order: the list order is the compiler's (references sort by type name), so the digest of `A | B` changes when A and B are renamed or inlined - `hash256` must not depend on type names or alias boundaries, `hash()` must be equal under member reordering" % (cname, mname, fld),
+                   mod.loc(m["function"]), sample={"class": cname, "method": mname, "member_list": fld})
+    rep.floor(rid, "digest methods of commutative combinators", n, 2)
